@@ -629,26 +629,34 @@ class Installed(object):
         self.world = world
 
     def __enter__(self):
-        self._saved = (lomond.session.socket, lomond.session.time,
-                       lomond.events.time, _current[0])
+        self._saved = (lomond.session.socket, getattr(lomond.session, 'time', None),
+                       getattr(lomond.events, 'time', None), _current[0], env.HOOKS['time'])
         _current[0] = self.world
         lomond.session.socket = SIM_SOCKET_MODULE
-        lomond.session.time = self.world
-        lomond.events.time = self.world
+        # the clock: module attributes (if lomond binds the module) and the global trampoline (any binding)
+        if hasattr(lomond.session, 'time'):
+            lomond.session.time = self.world
+        if hasattr(lomond.events, 'time'):
+            lomond.events.time = self.world
+        env.HOOKS['time'] = self.world.time
         return self.world
 
     def __exit__(self, *exc):
-        (lomond.session.socket, lomond.session.time,
-         lomond.events.time, _current[0]) = self._saved
+        sock, t1, t2, cur, hook = self._saved
+        lomond.session.socket = sock
+        if t1 is not None:
+            lomond.session.time = t1
+        if t2 is not None:
+            lomond.events.time = t2
+        _current[0] = cur
+        env.HOOKS['time'] = hook
         return False
 
 
 def check_patch_points():
     """Patch points must exist by name, else every check is inconclusive."""
     missing = []
-    for mod, name in ((lomond.session, 'socket'), (lomond.session, 'time'),
-                      (lomond.events, 'time'), (lomond.persist, 'random'),
-                      (lomond.session, 'threading'),
+    for mod, name in ((lomond.session, 'socket'),
                       (lomond.session.WebsocketSession, '_selector_cls'),
                       (lomond.session.WebsocketSession, '_wrap_socket'),
                       (lomond.selectors, 'SelectorBase')):
